@@ -165,7 +165,7 @@ def contrast_leg(ctx: Ctx, maxn: int):
 
 # ------------------------------------------------------------------ structured formulas with missing data (MC_Missing)
 STRUCTURED = {4: "b ~ a", 5: "b ~ A | a", 8: "a ~ 0 | A", 9: "a | 0 + b", 13: "b ~ 0 + C(A, contr.sum) | C(A, contr.sum) + a",
-              14: "C(A, contr.helmert) | 0 + C(A, contr.helmert) + C(A, contr.helmert):b"}
+              14: "C(A, contr.helmert) | 0 + C(A, contr.helmert) + C(A, contr.helmert):b", 15: "b ~ A + A:a | a + A:a", 16: "a + A:a | 0 + A:a | A + A:a"}
 
 
 def replay_structured(case):
